@@ -133,10 +133,23 @@ macro_rules! unwrap_or {
     };
 }
 
+#[cfg(feature = "verif_hooks")]
+macro_rules! vsync {
+    ($p:expr, $after:expr) => {
+        $crate::verif::at($p, $after)
+    };
+}
+#[cfg(not(feature = "verif_hooks"))]
+macro_rules! vsync {
+    ($p:expr, $after:expr) => {};
+}
+
 pub mod fasta;
 pub mod fastq;
 pub mod parallel;
 pub mod policy;
+#[cfg(feature = "verif_hooks")]
+pub mod verif;
 
 /// Remove a final '\r' from a byte slice
 #[inline]
